@@ -110,6 +110,19 @@ def trimMessage (msg : Str) (maxWidth : Nat) : Str :=
 /-- Query part of the prompt line when the whole query fits (no horizontal scrolling). -/
 def queryFits (o : ROpts) (input : Str) : Bool := input.length ≤ max 1 (o.W - o.prompt.length - 1)
 
+/-- `updatePromptOffset` for width-1 characters: the horizontal scroll offset of the query is kept
+    between what is needed to keep the cursor visible and half of the text left of the cursor
+    (history-dependent: a query that was scrolled stays partly scrolled). Returns the new offset
+    and the part of the query that is shown. -/
+def promptScroll (o : ROpts) (input : Str) (cx xoffset : Nat) : Nat × Str :=
+  let maxWidth := max 1 (o.W - o.prompt.length - 1)
+  let minOffset := cx - maxWidth
+  let maxOffset := minOffset + (maxWidth - (maxWidth - cx)) / 2
+  let xo := if xoffset < minOffset then minOffset else if xoffset > maxOffset then maxOffset else xoffset
+  let before := (input.take cx).drop xo
+  let after := (input.drop cx).take (maxWidth - before.length)
+  (xo, before ++ after)
+
 def promptRow (o : ROpts) (input : Str) (found total nsel : Nat) : Str :=
   let base := rowOf o.W ((fit o (o.W - 2) o.prompt 0 false) ++ input)
   match o.info with
